@@ -339,6 +339,14 @@ func constPolicy(a dns.MsgAcceptAction) dns.MsgAcceptFunc {
 
 func c14Spaces(c *fw.Ctx) {
 	defer c14RestartSpace(c)
+	// "the handler is invoked exactly once with the decoded request" when requests overlap: the admission spaces below
+	// run one packet at a time; here a datagram that the server answers itself (it passes the policy and does not decode;
+	// the policy refuses it) is followed by two requests whose handlers overlap with the next read — every path out of
+	// serveDNS hands its receive buffer back exactly once (the scenarios are C12's feeder scenarios, bound 2 / 1)
+	defer func() {
+		exploreSpace(c, "C14", c12FeederK("e2/admission/overlap/undecodable+2-datagrams-held", 2, true, []string{"undecodable"}), 2, 3000000, "a datagram that does not decode, then 2 requests held in their handlers until every datagram has been read")
+		exploreSpace(c, "C14", c12FeederK("e2/admission/overlap/formerr+undecodable+2-datagrams", 2, false, []string{"formerr", "undecodable"}), 1, 3000000, "a refused and an undecodable datagram, then 2 requests")
+	}()
 	transports := []string{"pc", "tcp"}
 	counts := []int{0, 1, 2, 3}
 	nsCounts := []int{0, 2, 3}
